@@ -786,12 +786,22 @@ def c12(ctx):
 
 def c18(ctx):
     binary = build()
+    # (1) the per-triple decisions of the serializer, transcribed (XmlSer.tla): guard = expressibility, split = namespace + NCName,
+    #     node ids are names and one-to-one - on every string of <= 5 characters over an alphabet with a member of every class
+    mc = Bg(lambda: model_check(ctx, "MC_XmlSer", workers=4, timeout=900))
+    out = tlc(ctx, "MC_XmlSer", cfg="MC_XmlSer_digits", workers=2, timeout=300, tag="MC_XmlSer_digits")
+    if "Invariant Laws is violated" not in out:
+        raise ToolError("XmlSer.tla no longer refutes the digits-only node id rule: the laws are vacuous\n" + out[-1500:])
+    ctx.notes.append("XmlSer.tla: NodeIdRule=digits-only (labels _1 and 1 collide) is refuted by TLC; the shipped rule satisfies every law")
     tr = os.path.join(ctx.traces, "xml.ndjson")
     n = 3000 if ctx.quick() else 60000
     sv(binary, ["rt", "--family", "xml", "--n", n, "--seed", ctx.seed, "--out", tr], ctx=ctx, timeout=6000)
     trace = rt_validate(ctx, tr, "xml")
+    mc.join()
     ctx.samples += [{"config": [e["fmt"], "indentation 4"], "in": show_quads(e["in"]), "document": uncps(e["outs"][4]["text"])[:600]} for e in trace[40:900:400] if e["ev"] == "RT"]
-    ctx.rule = ("Trace_RoundTrip.tla: for every (graph, indentation 0..8) serialisation either fails with an error value or yields a document whose parse is isomorphic to the RDF/XML-expressible part of the graph "
+    ctx.rule = ("XmlSer.tla transcribes the guard, the namespace / local-name split and the rdf:nodeID mapping; TLC checks on every string of <= 5 characters that the guard accepts exactly the "
+                "expressible predicates, that the split recomposes to the IRI with an NCName local part, and that node ids are names and one-to-one; every property element of every real document must be that split of a predicate of the graph. "
+                "Trace_RoundTrip.tla: for every (graph, indentation 0..8) serialisation either fails with an error value or yields a document whose parse is isomorphic to the RDF/XML-expressible part of the graph "
                 "(XmlExpressible: predicate IRI splits into namespace + NCName); for graphs with QName-able predicates and XML-legal text (XmlChar) it must succeed; outputs for every indentation must agree. %d random graphs: "
                 "literals over markup characters, whitespace runs, leading/trailing newlines, non-BMP, language tags, arbitrary datatypes incl. rdf:XMLLiteral, blank subjects/objects, namespace split points; "
                 "each input in a child process. distinct = (indentation set, graph)" % n)
